@@ -431,6 +431,7 @@ struct Worker {
     sender: Sender<Option<String>>,
     receiver: Receiver<Option<String>>,
     stopped: AtomicBool,
+    stop_requested: AtomicBool,
     stats: WorkerStats,
 }
 
@@ -445,6 +446,7 @@ impl Worker {
             sender: tx,
             receiver: rx,
             stopped: AtomicBool::new(false),
+            stop_requested: AtomicBool::new(false),
             stats: WorkerStats::new(),
         }
     }
@@ -467,8 +469,15 @@ impl Worker {
     }
 
     fn run(&self) {
-        for opt in self.receiver.iter() {
-            if let Some(v) = opt {
+        loop {
+            // The stop marker can't be queued when a bounded channel is full,
+            // so also stop once a stop has been requested and everything that
+            // was accepted before it has been drained.
+            if self.stop_requested.load(Ordering::Acquire) && self.receiver.is_empty() {
+                break;
+            }
+
+            if let Ok(Some(v)) = self.receiver.recv() {
                 self.stats.incr_drained();
                 (self.task)(v);
             } else {
@@ -483,7 +492,10 @@ impl Worker {
     }
 
     fn stop(&self) {
-        // Send a `None` poison pill value to stop the run loop.
+        self.stop_requested.store(true, Ordering::Release);
+        // Send a `None` poison pill value to stop the run loop. This wakes
+        // the worker if it is blocked on an empty channel; when the channel
+        // is full the worker notices `stop_requested` after draining it.
         let _ = self.sender.try_send(None);
     }
 
